@@ -49,6 +49,8 @@ class LoopSum:
         self.next = {}          # key -> value after one iteration (in terms of lh, var)
         self.lx = {}            # key -> exit symbol
         self.exits = []         # (kind, label, cond)
+        self.exit_states = []   # per exit: key -> value of the carried place at that exit
+        self.falls_through = True
         self.events = []        # events of the (second) body pass
         self.owner = None       # path of the body that contains the loop node
         self.sp = None
@@ -866,7 +868,7 @@ class VF:
         if self.fn_exits:
             self.fn_exits[-1].append((T.land(*(self.pc + [errc])), T.app('err_of', t), dict(self.store)))
         if self.loop_exits:
-            self.loop_exits[-1].append(('return', None, T.land(*(self.pc_since_loop() + [errc]))))
+            self.loop_exits[-1].append(('return', None, T.land(*(self.pc_since_loop() + [errc])), None))
         return val
 
     def pc_since_loop(self):
@@ -882,7 +884,7 @@ class VF:
         if self.fn_exits:
             self.fn_exits[-1].append((T.land(*self.pc), v, dict(self.store)))
         if self.loop_exits:
-            self.loop_exits[-1].append(('return', None, T.land(*self.pc_since_loop())))
+            self.loop_exits[-1].append(('return', None, T.land(*self.pc_since_loop()), None))
         self.dead = True
         return T.sym('dead')
 
@@ -890,13 +892,14 @@ class VF:
         if n.get('value') is not None:
             self.ev(n['value'])
         if self.loop_exits:
-            self.loop_exits[-1].append(('break', n.get('label'), T.land(*self.pc_since_loop())))
+            self.loop_exits[-1].append(('break', n.get('label'), T.land(*self.pc_since_loop()), dict(self.store)))
         self.dead = True
         return T.sym('dead')
 
     def ev_Continue(self, n):
+        self.note('continue inside loop: iteration-end state not merged', n)
         if self.loop_exits:
-            self.loop_exits[-1].append(('continue', n.get('label'), T.land(*self.pc_since_loop())))
+            self.loop_exits[-1].append(('continue', n.get('label'), T.land(*self.pc_since_loop()), dict(self.store)))
         self.dead = True
         return T.sym('dead')
 
@@ -977,10 +980,26 @@ class VF:
         res = body_fn()
         self.loop_stack.pop()
         ls.events = self.events[ev1:]
-        ls.exits = self.loop_exits.pop()
+        raw_exits = self.loop_exits.pop()
         self.loop_pc_base = self.loop_pc_base[:-1]
+        fall_dead = self.dead
+        ls.falls_through = not fall_dead
         for k in ls.lh:
-            ls.next[k] = self.read(Place(*k))
+            ls.next[k] = self.read(Place(*k)) if not fall_dead else None
+        # exit states: value of every carried place at each break
+        end_store = self.store
+        ls.exits = []
+        ls.exit_states = []
+        for ex in raw_exits:
+            kind, label, cond, snap = ex
+            ls.exits.append((kind, label, cond))
+            st = {}
+            if snap is not None:
+                self.store = snap
+                for k in ls.lh:
+                    st[k] = self.read(Place(*k))
+                self.store = end_store
+            ls.exit_states.append(st)
         self.dead = False
         # after the loop: exit symbols
         self.store = dict(s0)
@@ -1066,6 +1085,8 @@ class VF:
 
     def close_form(self, ls, lh, nxt, init):
         if init is None or not isinstance(init, T.Tm) or ls.n is None:
+            return None
+        if any(e[0] in ('break', 'continue') for e in ls.exits):
             return None
         lhs = set(ls.lh.values())
 
